@@ -388,10 +388,9 @@ impl Task {
         // let _lock = self.sync.lock().unwrap();
         debug!("exec task={:?}", ctx.task());
         if self.state().is_completed() {
-            return Err(ActError::Runtime(format!(
-                "task({}:{}) is already completed",
-                self.pid, self.id
-            )));
+            // the task was finished by an action while it was waiting in the queue
+            debug!("task({}:{}) is already completed", self.pid, self.id);
+            return Ok(());
         }
         self.init(ctx)?;
         self.run(ctx)?;
